@@ -505,7 +505,9 @@ pub fn run(rep: &mut Report, tier: &str) {
     }
     // (d) nesting depth in child processes
     let depths: Vec<usize> = if thorough { vec![10, 100, 1000, 3000, 10_000, 100_000, 1_000_000] } else { vec![10, 100, 1000, 3000, 10_000, 100_000] };
-    for kind in ["packages", "mixed-inline", "unknown"] {
+    // (the sanitizer build of the add-on has other frame sizes and its own stack overflow handler: the probes belong to the native run)
+    let kinds: &[&str] = if crate::san::is_san_child() { &[] } else { &["packages", "mixed-inline", "unknown"] };
+    for kind in kinds.iter().copied() {
         let mut first_crash = None;
         for d in &depths {
             rep.evaluations += 1;
